@@ -38,15 +38,79 @@ CHECKS = {
    note=TB + ' The all-inputs schema theorem over the semantic actions (C12_partial) is under construction; exclusions are the listed known findings (D12, D19).'),
 }
 
-NOT_YET = {
- 'C02': 'check under construction (render/denote oracle in Lean)',
- 'C06': 'check under construction (quote-removal oracle in Lean)',
- 'C07': 'check under construction', 'C08': 'check under construction', 'C09': 'check under construction',
- 'C10': 'check under construction', 'C11': 'check under construction', 'C13': 'check under construction',
- 'C14': 'check under construction', 'C15': 'check under construction', 'C16': 'check under construction',
- 'C17': 'check under construction', 'C18': 'check under construction', 'C19': 'check under construction',
- 'C20': 'check under construction',
-}
+CHECKS.update({
+ 'C02': dict(level='translation_validation', technique='Lean 4 oracle (generator + renderer + expected AST in one definition) evaluated per case; model correspondence',
+   text='Abstract trees, their spellings and the AST a spelling denotes are ONE Lean definition (Spec/Render.lean, driven by a choice sequence): small trees are '
+        'enumerated exhaustively, larger ones sampled; parse(rendered) is compared with the expected tree (kinds, nesting, operators, reserved words, word values, '
+        'assignment classification, spans). The oracle checks itself on every case with the C03/C04/C05/C06/C12 predicates.',
+   note=TB + ' Per-case evaluation against a Lean-defined oracle (translation-validation strength), not a theorem over all trees; LR soundness (C09_sound) is the proved part.'),
+ 'C06': dict(level='proof', technique='Lean 4 definition of quote removal and of POSIX shlex evaluated on implementation outcomes; model correspondence',
+   text='Spec.quoteRemove (independent small-step definition keeping expansions verbatim) is compared with the value of every word/assignment node of every returned tree '
+        '(all words up to a length bound over the quoting alphabet in nine word positions, plus generated scripts); split is compared with a Lean transcription of POSIX shlex '
+        '(validated against Python shlex.split on every input) exhaustively on the plain/blank/quote/backslash alphabet. Deviations are classified by decidable features of the source (K1-K7).',
+   note=TB + ' No all-inputs theorem for the expander yet (C06_partial is future work); the K classes are the listed known findings.'),
+ 'C07': dict(level='proof', technique='Lean 4 relation evaluated on implementation outcomes; model correspondence',
+   text='For command texts A accepted alone and 13 embedding contexts the substitution node opened at the known offset must hold parse(A) shifted (relation in Lean); '
+        'expansions under single quotes or backslashes in six word shapes must yield no substitution/parameter/tilde node.',
+   note=TB + ' Nested parsers are the same Lean function parserRun applied to the substring (by definition); exclusions are the known findings D6, D8, D9, D10, D27, D34.'),
+ 'C08': dict(level='proof', technique='Lean 4 proof: LR soundness on the regenerated tables (accepted => derivable); edit catalogue confirmed by bash -n',
+   text='Proved (C09_sound, real_WF): whatever the LR engine accepts, in top-level and substitution mode, for every token source, is the yield of a derivation of the declared '
+        'grammar, so no table artefact (conflict resolution, hand patches) lets an underivable token sequence through. String level: a catalogue of syntax-breaking edits of '
+        'well-formed scripts, each confirmed invalid by GNU bash -n, must be rejected; model correspondence on the same inputs.',
+   note=TB + ' bash -n only filters the catalogue. Quote/bracket balance of WORD tokens is observed, not proved.'),
+ 'C09': dict(level='proof', technique='Lean 4 proof (kernel-checked table well-formedness + engine soundness) ; engine-vs-model traces; Earley recogniser for the converse',
+   text='tablesWF is decided by the kernel on the tables regenerated from the running code (after the import-time patches) and run_sound lifts it to: every accepted token '
+        'sequence is derivable and the engine never fails internally (=> direction, all inputs). The real LRParser.parse is driven by a synthetic token source and compared with the '
+        'Lean engine (verdict, tokens fetched, full reduction trace) on all sequences up to a length bound over six sub-alphabets in both modes; the <= direction is evaluated '
+        'against an independent Earley recogniser on the same sequences.',
+   note=TB + ' The <= direction (every derivable sentence is accepted) is bounded enumeration, not a theorem; known findings D8, D9.'),
+ 'C10': dict(level='proof', technique='Lean 4 relation with the pairing known by construction; model correspondence',
+   text='Inputs are built from their parts (1-3 operators, delimiter spellings, bodies, following text, enclosing construct), so operator position, body extent, tab stripping '
+        'and the start of the following command are known; the Lean relation checks pairing in operator order, body span/value and the resume point on the implementation outcome.',
+   note=TB + ' No theorem for the here-document reader yet; known findings D11 (compound contexts, quoted delimiters).'),
+ 'C11': dict(level='proof', technique='Lean 4 predicate on error triples; history independence theorems (QCongr); model correspondence of (message, source, position)',
+   text='Eval.errOK (Lean) checks source = input, 0 <= position <= len, token text at position / EOF at len on every ParsingError of edits placed at top level, in '
+        'substitutions, nested twice and in later lines; all calls run back to back in one process and the model (history-free, History.results_eq_solo) must agree on the triple.',
+   note=TB + ' Known findings D15, D21 (nested / later-part parsers report their substring).'),
+ 'C13': dict(level='proof', technique='Lean 4 proof: the outcome of a parser run depends only on the tape prefix it examined (Q.run_prefix); relation evaluated on outcomes',
+   text='Proved for every program in the query monad, hence for the whole parser model: a run that examines only tape cells < k and asks for no whole-input query gives the '
+        'same result on every tape agreeing on those cells (Q.run_prefix, runParser_prefix). parse(A+sep+B) = parse(A) ++ shift(parse(B)) is evaluated (Lean relation) on pairs and '
+        'triples of accepted commands x separators x options.',
+   note=TB + ' That the first parser stops at the newline (maxCell <= len(A)+1) is a per-input fact, evaluated, not proved for all A.'),
+ 'C14': dict(level='proof', technique='Lean 4 relation (induced monotone span map) evaluated on outcomes; model correspondence',
+   text='For every accepted input and layout-only edits at inter-token gaps located from the leaf spans (widening, tabs, continuation, comment at end of line, leading blank '
+        'lines, trailing newlines) the second parse must equal the first with spans mapped by the insertion map (Spec.relayout).',
+   note=TB + ' Naturality of the LR engine and actions under span maps (T3) is not proved yet.'),
+ 'C15': dict(level='proof', technique='Lean 4 proof by structural induction over all trees and all prune predicates; trace comparison with a recording visitor',
+   text='Proved (Props/C15.lean): for every tree of the typed AST and every prune predicate the visitor enters exactly the nodes reached in pre-order with pruned subtrees '
+        'skipped, enter/leave events are balanced, mapPos (posshifter, _adjustpositions) rewrites the span of every node once; the kinds constructed in the sources are a subset of '
+        'the dispatched kinds which have callbacks (regenerated data). The model visit is compared with a recording nodevisitor subclass on real trees, pruning at every node of small trees.',
+   note=TB),
+ 'C16': dict(level='proof', technique='Lean 4 relation (pruneLimit) evaluated on outcomes; model correspondence',
+   text='parse(s, expansionlimit=k) must equal Spec.pruneLimit k (parse(s)) for k in 0..3 on inputs with substitutions nested up to depth 4 in every word position and on every line.',
+   note=TB + ' The all-inputs theorem (expand_limit + naturality) is not proved yet.'),
+ 'C17': dict(level='proof', technique='Lean 4 proof: an option that is never asked cannot matter (query congruence); relations evaluated on outcomes',
+   text='Proved for the whole parser model: if a run never asks optStrict (resp. optProceed) the outcome is the same for both values, and conversely a differing outcome implies the '
+        'query was made (parse_strict_irrelevant, parse_proceed_irrelevant, parsesingle_*). parsesingle = head of parse, convertpos = span-to-text map, strict/proceed change only '
+        'here-document-at-EOF / NotImplementedError outcomes: Lean relations evaluated on every input x option pairs.',
+   note=TB + ' The "as if replaced by a plain command" half of the proceedonerror clause is not checked; known findings D18, D19.'),
+ 'C18': dict(level='proof', technique='Lean 4 proof: history independence of every program in the query monad; fresh-interpreter comparison; module snapshots; static write-site obligation',
+   text='Proved: the only store shared between calls is the set of sh_syntaxtab keys looked up, no answer depends on it, hence the i-th outcome of any history equals the solo outcome '
+        '(History.results_eq_solo) and the store only grows by looked-up keys (Q.run_touched). Tie: every call of sequential, re-entrant and aborted histories is compared with the same call '
+        'in a fresh interpreter and with the model; tables / token tables / eoftoken are snapshotted around every call; no_unlisted_shared_write on the regenerated write sites.',
+   note=TB),
+ 'C19': dict(level='proof', technique='Lean 4 proof: interleaving independence of a pool of query programs; deterministic line-level scheduler and stress runs',
+   text='Proved (Pool.exec_value, Pool.exec_all): under every schedule of atomic queries each thread returns its solo result. Runtime tie: per-thread outcomes under a deterministic '
+        'line-level scheduler (sys.settrace, run-token hand-over, bounded preemptions) and under free-running stress are compared with fresh-interpreter solo outcomes.',
+   note=TB + ' The theorem is about the abstract interleaving model; CPython preemption points, GIL atomicity of defaultdict.__missing__ and free-threaded builds are only observed.'),
+ 'C20': dict(level='proof', technique='Lean 4 kernel-checked reachability on the call graph / effect sites regenerated from the source; sys.addaudithook observation',
+   text='Proved on data regenerated from the source on every run (C20_static): no function reachable from parse / parsesingle / split holds an effect site outside a short justified '
+        'allow-list (each entry tied to the guard that keeps it dead), no unlisted module-level write, yacc.yacc is called with debug off and has no table writer. Tie: audit-hook '
+        'events during thousands of calls on dangerous-looking inputs; package directory hash and cwd around import in a fresh interpreter.',
+   note=TB + ' The graph is name-based (sound by over-approximation for direct calls; stored callables are covered by two rules plus the unresolved-calls obligation).'),
+})
+
+NOT_YET = {}
 
 def main():
     checks = []
